@@ -2,7 +2,7 @@
 import re
 from lib.facts import CallGraph
 from lib.mirq import Slice, calls_matching, edge_dominates, result_exits
-from lib.mirfwd import (bool_switches, callee_of, cycle_members, derives_from_call, forwarded_sites, helper_frames, ip_roots, result_checked, result_edges)
+from lib.mirfwd import (bool_switches, callee_of, cycle_members, blocks_between, derives_from_call, edges_dominate, empty_edges, forwarded_sites, helper_frames, ip_roots, result_checked, result_edges)
 
 TECHNIQUE = ("MIR CFG path rules (dominance, must-pass-through pairing, edge dominance) + operand provenance + who-may-call on the include expander; "
              "roles by type / callee / recursion cycle, calls followed through private helpers and closures with parameters bound to arguments (lib/mirfwd.py)")
@@ -68,6 +68,7 @@ PUSH_RX = re.compile(r"alloc::string::String::(push_str|push|insert_str|extend)$
 TEXT_TYPES = ("&str", "&alloc::string::String", "&mut alloc::string::String", "alloc::string::String")
 FRESH_SET = re.compile(r"::(new|default|with_capacity|with_hasher|with_capacity_and_hasher)$")
 CWD = re.compile(r"current_dir|env::|home_dir|temp_dir")
+FALLIBLE_PATH_OPS = re.compile(r"Path::canonicalize$|fs::File::open$|Read>::read_to_string$|fs::read_to_string$")
 
 
 def last(fn):
@@ -468,7 +469,7 @@ def check_guarded(F, rep, R, cg, bodies):
         X = cg.bodies[fn]
         for fr in helper_frames(cg, X, stop=cycle_fns, depth=2):
             b = fr[-1][0]
-            for blk, t in calls_matching(b, r"Path::canonicalize$|fs::File::open$|Read>::read_to_string$|fs::read_to_string$"):
+            for blk, t in calls_matching(b, FALLIBLE_PATH_OPS):
                 idx = len(fr) - 1
                 term = t
                 flows = True
@@ -485,14 +486,28 @@ def check_guarded(F, rep, R, cg, bodies):
                 rep.check(flows, "C20-R6", "%s:%s-propagated" % (fn, callee_of(t).split("::")[-1]),
                           "the result of %s (line %d) is not propagated with `?`: a missing include would not fail the load" % (callee_of(t), t["l"]),
                           "%s:%d" % (b.file, t["l"]))
+        # .. and operations inside a closure of X that is chained onto a Result (`File::open(p).and_then(|mut f| f.read_to_string(..))`):
+        # the closure must return / propagate the result and the combinator's result must be propagated in X
+        for cname, cb in sorted(cg.bodies.items()):
+            if not cname.startswith(fn + "::{closure"):
+                continue
+            for blk, t in calls_matching(cb, FALLIBLE_PATH_OPS):
+                flows = result_checked(cb, t) in ("return", "try", "match")
+                if flows:
+                    cl = [s_["d"][0] for _, s_ in X.stmts() if s_.get("closure") == cname]
+                    users = [t2 for _, t2 in X.calls() if any(isinstance(a, list) and a[0] in cl for a in t2["args"][1:])]
+                    flows = bool(users) and all(re.search(r"::(and_then|or_else)$", callee_of(t2)) and result_checked(X, t2) in ("try", "match") for t2 in users)
+                rep.check(flows, "C20-R6", "%s:%s-propagated" % (fn, callee_of(t).split("::")[-1]),
+                          "the result of %s (line %d, in a closure) is not propagated with `?`: a missing include would not fail the load" % (callee_of(t), t["l"]),
+                          "%s:%d" % (cb.file, t["l"]))
     run_r7(F, rep, rep.tier, close_names)
-    run_r8(F, rep, cg, sorted(reentry), inlined_expander)
+    run_r8(F, rep, cg, sorted(reentry), inlined_expander, name)
     run_r9(F, rep, R, mir9, cg)
 
 
 def run_r7(F, rep, tier="quick", close_tests=()):
     """C20-R7: a line closes a code fence iff it uses the opening marker and is at least as long as the opening run (decided over a finite table)"""
-    from lib.facts import find, walk, is_node, path_of, render
+    from lib.facts import find, walk, is_node, path_of, render, render_pat
     from lib.minieval import ev, NoEval
     rep.rule("C20-R7", "is_code_fence_close(line, marker, min_len): over all (line marker, opening marker, run length, opening length) the early `return false` guards reject exactly "
                        "the lines with another marker or a SHORTER run - a longer run still closes (CommonMark), so text after a fence is never mistaken for fenced text or vice versa")
@@ -502,24 +517,59 @@ def run_r7(F, rep, tier="quick", close_tests=()):
         return
     it = fns[0]
     params = [p[0][1] for p in it["sig"]["inputs"] if is_node(p[0]) and p[0][0] == "pident"]
-    # the (marker, run length, rest offset) of the line: whatever pattern takes apart the result of code_fence_delimiter
-    # (`let Some((m, c, a)) = .. else`, `if let`, `match .. { Some((m, c, a)) => .. }`)
-    bound = None
-    is_delim = lambda e: any(path_of(c[1]) and path_of(c[1]).endswith("code_fence_delimiter") for c in find(e, "call"))
+    # The function is INTERPRETED over the finite table: a three-valued result per (line marker, run, opening marker, opening run):
+    #   False = the line is rejected whatever follows the run, True = accepted, REST = depends on the rest of the line (a string
+    # value outside the table).  Anything the interpreter cannot follow that involves a table variable raises Undecided: the table
+    # is then NOT evaluated (note, no verdict) - a construct is never skipped silently.
+    def strip(e):
+        while is_node(e) and e[0] in ("paren", "ref"):
+            e = e[1] if e[0] == "paren" else e[2]
+        return e
+
+    def some3(pat):
+        """names bound by `Some((a, b, c))` (None for `_`), else None"""
+        if is_node(pat) and pat[0] == "pts" and pat[1].split("::")[-1] == "Some" and len(pat[2]) == 1 and is_node(pat[2][0]) and pat[2][0][0] == "ptuple" and len(pat[2][0][1]) == 3:
+            names = []
+            for x in pat[2][0][1]:
+                if is_node(x) and x[0] == "pident" and not x[4]:
+                    names.append(x[1])
+                elif is_node(x) and x[0] == "pwild":
+                    names.append(None)
+                else:
+                    return None
+            return names
+        return None
+    simple_lets = {st[1][1]: st[2] for st in find(it["body"], "let") if len(st) > 2 and st[2] is not None and is_node(st[1]) and st[1][0] == "pident"}
+
+    def is_delim(e, depth=0):
+        e = strip(e)
+        if is_node(e) and e[0] == "call" and (path_of(e[1]) or "").endswith("code_fence_delimiter"):
+            return True
+        return is_node(e) and e[0] == "path" and e[1] in simple_lets and depth < 3 and is_delim(simple_lets[e[1]], depth + 1)
     pats = [(st[1], st[2]) for st in find(it["body"], "let") if len(st) > 2 and st[2] is not None]
     pats += [(lc[1], lc[2]) for lc in find(it["body"], "letc")]
     pats += [(arm[0], m[1]) for m in find(it["body"], "match") for arm in m[2]]
-    for pat, init in pats:
-        if is_node(init) and is_delim(init):
-            ids = [p[1] for p in find(pat, "pident")]
-            if len(ids) == 3:
-                bound = ids
+    bounds = [some3(pat) for pat, init in pats if is_node(init) and is_delim(init) and some3(pat)]
+    bound = bounds[-1] if bounds else None
     if not rep.check(len(params) == 3 and bound is not None, "C20-R7", "anchor:shape", "is_code_fence_close no longer has the (line, marker, min_len) / let Some((marker, count, after)) shape: %s %s" % (params, bound)):
         return
-    # named locals for sub-expressions (`let same_marker = line_marker == marker;`) are evaluated on demand
-    simple_lets = {st[1][1]: st[2] for st in find(it["body"], "let") if len(st) > 2 and st[2] is not None and is_node(st[1]) and st[1][0] == "pident"}
+    TABLE = {params[1], params[2]} | {b[0] for b in bounds if b[0]} | {b[1] for b in bounds if b[1]}
+    REST = "rest"
+
+    class Undecided(Exception):
+        pass
+
+    def mentions_table(e, seen=()):
+        for n in walk(e):
+            if n[0] == "path":
+                if n[1] in TABLE:
+                    return True
+                if n[1] in simple_lets and n[1] not in seen and mentions_table(simple_lets[n[1]], seen + (n[1],)):
+                    return True
+        return False
 
     class Env(dict):
+        # named locals for sub-expressions (`let same_marker = line_marker == marker;`) are evaluated on demand
         def __contains__(self, k):
             return dict.__contains__(self, k) or k in simple_lets
 
@@ -527,81 +577,140 @@ def run_r7(F, rep, tier="quick", close_tests=()):
             if not dict.__contains__(self, k):
                 self[k] = ev(simple_lets[k], self)
             return dict.__getitem__(self, k)
-    # the conditions under which the function answers `false`: (expression, value of the expression that rejects)
-    #   `if c { return false }` (also in else-if chains)            -> (c, True)
-    #   value `a && b && ..` / `if c { .. } else { false }`          -> (a, False), (b, False), (c, False) for the interpretable conjuncts
-    rejects = []
+    used = set()
 
-    def guard_ifs(n):
-        rets = [x for s2 in n[2] for x in walk(s2) if x[0] == "ret"]
-        if rets and render(rets[0][1]) == "false":
-            rejects.append((n[1], True))
-        if is_node(n[3]) and n[3][0] == "if":
-            guard_ifs(n[3])
+    def join(a, b):
+        return a if a == b else REST
 
-    def conjuncts(e):
-        while is_node(e) and e[0] == "paren":
-            e = e[1]
-        if is_node(e) and e[0] == "bin" and e[1] == "&&":
-            return conjuncts(e[2]) + conjuncts(e[3])
-        return [e]
+    def cond(e, env):
+        e = strip(e)
+        if not is_node(e):
+            raise Undecided(str(e)[:30])
+        if e[0] == "bool":
+            return bool(e[1])
+        if e[0] == "un" and e[1] == "!":
+            v = cond(e[2], env)
+            return REST if v == REST else (not v)
+        if e[0] == "bin" and e[1] in ("&&", "||"):
+            a = cond(e[2], env)
+            if e[1] == "&&":
+                if a is False:
+                    return False
+                b = cond(e[3], env)
+                return False if b is False else (True if (a is True and b is True) else REST)
+            if a is True:
+                return True
+            b = cond(e[3], env)
+            return True if b is True else (False if (a is False and b is False) else REST)
+        if e[0] == "block":
+            return result(e[1], env)
+        try:
+            v = ev(e, Env(env))
+        except NoEval:
+            if mentions_table(e):
+                raise Undecided(render(e)[:60])
+            return REST          # about the rest of the line only
+        if not isinstance(v, bool):
+            raise Undecided(render(e)[:60])
+        if mentions_table(e):
+            used.add(render(e))
+        return v
 
-    def value_rejects(e, depth=0):
-        while is_node(e) and e[0] == "paren":
-            e = e[1]
-        if is_node(e) and e[0] == "if" and depth < 4 and e[3] is not None and not (is_node(e[1]) and e[1][0] == "letc"):
-            els = e[3]
-            els_tail = els[1][-1][1] if is_node(els) and els[0] == "block" and els[1] and els[1][-1][0] == "expr" else els
-            if render(els_tail) == "false":
-                for c in conjuncts(e[1]):
-                    rejects.append((c, False, "opt"))
-                th = e[2][-1] if e[2] else None
-                if th is not None and th[0] == "expr":
-                    value_rejects(th[1], depth + 1)
-            return
-        for c in conjuncts(e):
-            rejects.append((c, False, "opt"))
-    def falsy(e):
+    def stmts_of(e):
+        if e is None:
+            return []
         if is_node(e) and e[0] == "block":
-            return bool(e[1]) and e[1][-1][0] == "expr" and falsy(e[1][-1][1])
-        return is_node(e) and render(e) in ("false", "return false")
+            return list(e[1])
+        return [["expr", e, False]]
 
-    def process_block(stmts, depth=0):
-        for i, st in enumerate(stmts):
-            is_tail = i == len(stmts) - 1 and st[0] == "expr" and not (len(st) > 2 and st[2])
-            e = st[1] if st[0] == "expr" else None
-            if is_node(e) and e[0] == "if":
-                if is_tail and e[3] is not None:
-                    if is_node(e[1]) and e[1][0] == "letc":
-                        # `if let Some(..) = delimiter(line) { <rest> } else { false }`: the rest decides
-                        if falsy(e[3]) and depth < 4:
-                            process_block(e[2], depth + 1)
+    def bind(names, env, vals):
+        env2 = dict(env)
+        for nme, v in zip(names, vals):
+            if nme:
+                env2[nme] = v
+        return env2
+
+    def result(stmts, env, depth=0):
+        """value the function returns when `stmts` are the remaining statements in tail position"""
+        if depth > 40:
+            raise Undecided("nesting")
+        stmts = [st for st in stmts if is_node(st) and st[0] in ("let", "expr")]
+        if not stmts:
+            raise Undecided("control reaches the end of a block without a value")
+        st, rest = stmts[0], stmts[1:]
+        if st[0] == "let":
+            els = st[3] if len(st) > 3 else None
+            if st[2] is not None and is_delim(st[2]) and some3(st[1]):
+                # the table models a line that IS a fence delimiter: the pattern matches
+                return result(rest, bind(some3(st[1]), env, (env["$lm"], env["$cnt"], 0)), depth + 1)
+            if els is not None:
+                if st[2] is not None and mentions_table(st[2]):
+                    raise Undecided("let-else on %s" % render(st[2])[:40])
+                return join(result(stmts_of(els), env, depth + 1), result(rest, env, depth + 1))
+            return result(rest, env, depth + 1)
+        e = strip(st[1])
+        if not is_node(e):
+            raise Undecided("statement")
+        if e[0] == "ret":
+            return cond(e[1], env) if e[1] is not None else None
+        if e[0] == "block":
+            return result(list(e[1]) + rest, env, depth + 1)
+        if e[0] == "if":
+            c = e[1]
+            if is_node(c) and c[0] == "letc":
+                if is_delim(c[2]) and some3(c[1]):
+                    return result(list(e[2]) + rest, bind(some3(c[1]), env, (env["$lm"], env["$cnt"], 0)), depth + 1)
+                if mentions_table(c[2]):
+                    raise Undecided("if let on %s" % render(c[2])[:40])
+                cv = REST
+            else:
+                cv = cond(c, env)
+            a = (lambda: result(list(e[2]) + rest, env, depth + 1))
+            b = (lambda: result(stmts_of(e[3]) + rest, env, depth + 1))
+            return a() if cv is True else b() if cv is False else join(a(), b())
+        if e[0] == "match":
+            if is_delim(e[1]):
+                pending = []
+                for arm in e[2]:
+                    names = some3(arm[0])
+                    pat = arm[0]
+                    if names:
+                        env2 = bind(names, env, (env["$lm"], env["$cnt"], 0))
+                        g = cond(arm[1], env2) if arm[1] is not None else True
+                        if g is False:
+                            continue
+                        v = result(stmts_of(arm[2]) + rest, env2, depth + 1)
+                        if g is True:
+                            pending.append(v)
+                            break
+                        pending.append(v)
+                    elif is_node(pat) and (pat[0] == "pwild" or (pat[0] == "pident" and pat[1] != "None" and not pat[4])):
+                        g = cond(arm[1], env) if arm[1] is not None else True
+                        if g is False:
+                            continue
+                        pending.append(result(stmts_of(arm[2]) + rest, env, depth + 1))
+                        if g is True:
+                            break
+                    elif is_node(pat) and ((pat[0] == "pident" and pat[1] == "None") or (pat[0] == "ppath" and pat[1].split("::")[-1] == "None")):
+                        continue
                     else:
-                        value_rejects(e)
-                else:
-                    guard_ifs(e)
-            elif is_node(e) and e[0] == "match" and is_tail and depth < 4:
-                live = [a for a in e[2] if not falsy(a[2])]
-                if len(live) == 1 and a_is_plain(live[0]):
-                    body = live[0][2]
-                    process_block(body[1] if is_node(body) and body[0] == "block" else [["expr", body, False]], depth + 1)
-            elif is_tail:
-                value_rejects(e)
-
-    def a_is_plain(arm):
-        return arm[1] is None
-    process_block(it["body"])
-    probe = Env({bound[0]: "`", bound[1]: 3, bound[2]: 0, params[1]: "`", params[2]: 3})
-    usable = []
-    for r in rejects:
-        if len(r) == 3:
-            try:
-                ev(r[0], Env(probe))
-            except NoEval:
-                continue      # a conjunct about the rest of the line (string value): not part of the (marker, length) table
-        usable.append(r)
-    guards = [r[0] for r in usable]
-    rep.floor("C20-R7", "early-return guards in is_code_fence_close", len(guards), 1)
+                        raise Undecided("match arm %s" % render_pat(pat)[:40])
+                if not pending:
+                    raise Undecided("no arm of the match on the delimiter applies")
+                out = pending[0]
+                for v in pending[1:]:
+                    out = join(out, v)
+                return out
+            if mentions_table(e[1]):
+                raise Undecided("match on %s" % render(e[1])[:40])
+            vals = [result(stmts_of(arm[2]) + rest, env, depth + 1) for arm in e[2]]
+            out = vals[0]
+            for v in vals[1:]:
+                out = join(out, v)
+            return out
+        if not rest:
+            return cond(e, env)
+        return result(rest, env, depth + 1)          # an expression statement (side effect only)
     wrong = []
     n = 0
     try:
@@ -609,18 +718,20 @@ def run_r7(F, rep, tier="quick", close_tests=()):
             for om in ("`", "~"):
                 for cnt in ((3, 4, 5) if tier != "thorough" else range(3, 12)):
                     for ml in ((3, 4, 5) if tier != "thorough" else range(3, 12)):
-                        env = {bound[0]: lm, bound[1]: cnt, bound[2]: 0, params[1]: om, params[2]: ml}
-                        rejected = any(bool(ev(r[0], Env(env))) == r[1] for r in usable)
+                        env = {"$lm": lm, "$cnt": cnt, params[1]: om, params[2]: ml}
+                        rejected = result(it["body"], env) is False
                         expect_reject = (lm != om) or (cnt < ml)
                         n += 1
                         if rejected != expect_reject:
                             wrong.append("line %s x%d against opening %s x%d is %s" % (lm, cnt, om, ml, "rejected" if rejected else "accepted"))
-    except NoEval as ex:
-        rep.note("C20-R7-undecided", "guard not interpretable: %s" % ex)
+    except (Undecided, NoEval, RecursionError) as ex:
+        rep.note("undecided", "C20-R7: is_code_fence_close is not interpretable over the (marker, length) table (%s); the table is not evaluated" % ex)
         return
+    guards = sorted(used)
+    rep.floor("C20-R7", "early-return guards in is_code_fence_close", len(guards), 1)
     rep.check(not wrong, "C20-R7", "fence-close-table" if not wrong else "fence-close-table:%d-of-%d-wrong" % (len(wrong), n),
               "is_code_fence_close decides %d of %d (marker, length) combinations wrongly, e.g. %s: a fence closes early or never, so include tokens inside code are expanded or tokens after the fence are left alone" % (len(wrong), n, "; ".join(wrong[:3])),
-              "is_code_fence_close (src/mechfs.rs)", sample={"combinations": n, "guards": [render(g) for g in guards]})
+              "is_code_fence_close (src/mechfs.rs)", sample={"combinations": n, "guards": guards})
 
 
 LINE_SPLIT = re.compile(r"split_inclusive$|::lines$|::split$|::split_terminator$|::chars$")
@@ -641,11 +752,15 @@ def option_switches(body, local):
     return out
 
 
-def run_r8_cfg(rep, cg, tname):
-    """C20-R8 on the MIR of the token expander (any spelling of the loop body / the exits).  Returns True when the line loop was found."""
+EMPTY_TEXT = re.compile(r"alloc::string::String::(new|with_capacity)$|Default>::default$|String as core::default::Default")
+
+
+def run_r8_cfg(rep, cg, tname, gname=None):
+    """C20-R8 on the MIR of the token expander (any spelling of the loop body / the exits).
+    Returns None when the line loop was not found, else the verdict per clause {"exit", "acc", "perline"} (perline None = not identified)."""
     tb = cg.bodies.get(tname)
     if tb is None:
-        return False
+        return None
     sl = Slice(tb, extra_pass=LINE_SPLIT)
     text_params = [i for i in range(1, tb.nargs + 1) if tb.locals[i] in TEXT_TYPES]
     loops = []
@@ -654,12 +769,33 @@ def run_r8_cfg(rep, cg, tname):
             for sw in option_switches(tb, ht["d"][0]):
                 loops.append((hb, ht) + sw)
     if len(loops) != 1:
-        return False
+        return None
     hb, ht, hsw, none_t, some_t = loops[0]
     where = "%s (mech)" % last(tname)
     ok_exits, err_exits = result_exits(tb)
     rep.floor("C20-R8", "Ok exits of the token expander", len(ok_exits), 1)
-    early = sorted(b for b in ok_exits if not edge_dominates(tb, hsw, none_t, b))
+    plain = Slice(tb)
+    # An Ok exit must lie behind the None edge of the line iterator (all lines seen).  The one other legitimate exit is the
+    # zero-iteration case taken early: every path to it crosses the None edge or an edge taken exactly when the text IS EMPTY
+    # (`text.is_empty()`, `text.len() == 0`), the returned String derives from nothing but a fresh empty String / the (empty)
+    # text itself, and nothing is appended to it on the way.  A shortcut under any other condition skips lines.
+    e_edges = empty_edges(tb, set(text_params))
+    early = []
+    for b in sorted(ok_exits):
+        if edge_dominates(tb, hsw, none_t, b):
+            continue
+        good = bool(e_edges) and edges_dominate(tb, [(hsw, none_t)] + e_edges, b)
+        if good:
+            payload = [o for s in tb.blocks[b]["s"] if s["d"][0] == 0 and s.get("rk") == "agg" for o in s["src"]]
+            pl = set()
+            for o in payload:
+                good = good and all((r[0] == "call" and EMPTY_TEXT.search(r[1])) or (r[0] == "arg" and r[1] in text_params)
+                                    or (r[0] == "const" and str(r[1]).strip() in ('""', "")) for r in plain.roots(o))
+                pl |= {l for l in plain.locals_feeding(o) if tb.locals[l] == "alloc::string::String"}
+            on_way = blocks_between(tb, b, [(hsw, none_t)])
+            good = good and not any(pb in on_way and (plain.locals_feeding(pt["args"][0]) & pl) for pb, pt in calls_matching(tb, PUSH_RX))
+        if not good:
+            early.append(b)
     rep.check(not early, "C20-R8", "cfg:ok-exit-only-after-the-last-line",
               "%s can return Ok (line %s) without the line loop having run to the end of the chunk: include lines behind the exit stay literal text and a cycle or a missing "
               "file behind them is accepted" % (last(tname), [tb.blocks[b]["s"][-1]["l"] if tb.blocks[b]["s"] else tb.blocks[b]["t"].get("l") for b in early]), where)
@@ -684,15 +820,30 @@ def run_r8_cfg(rep, cg, tname):
                 top_blk = b if len(fr) == 1 else [i for i, t0 in tb.calls() if t0 is fr[1][1]][0]
                 if in_loop(top_blk):
                     per_line += 1
+    verdict = {"exit": not early, "acc": bool(pushed & returned), "perline": None}
     if per_line == 0 and not any(f.endswith("::standalone_braced_content") for f in cg.bodies):
-        rep.note("undecided", "C20-R8: no function standalone_braced_content in the crate any more (inlined?); the per-line test is not identified")
+        # the stand-alone-line test is no longer a function (inlined).  Its clause in name-free form: every iteration accounts for
+        # its line - on every path from "next() returned a line" back to the loop header the line is either copied to the
+        # accumulator (an append whose argument derives from the loop item) or handed to the guarded function (the include branch)
+        item = ht["d"][0]
+        handled = {b for b, t in calls_matching(tb, PUSH_RX) if len(t["args"]) > 1 and isinstance(t["args"][1], list)
+                   and item in plain.locals_feeding(t["args"][1]) and (plain.locals_feeding(t["args"][0]) & (pushed & returned))}
+        handled |= {b for b, t in tb.calls() if gname and callee_of(t) == gname}
+        if handled and gname:
+            skipped = hb in tb.reachable_from([some_t], avoid=handled)
+            verdict["perline"] = not skipped
+            rep.check(not skipped, "C20-R8", "cfg:per-line-test",
+                      "an iteration of the line loop of %s can end without the line having been copied to the result or expanded" % last(tname), where)
+        else:
+            rep.note("undecided", "C20-R8: no function standalone_braced_content in the crate any more (inlined?); the per-line test is not identified")
     else:
+        verdict["perline"] = per_line >= 1
         rep.check(per_line >= 1, "C20-R8", "cfg:per-line-test",
                   "the line loop of %s does not apply standalone_braced_content to each line" % last(tname), where)
-    return True
+    return verdict
 
 
-def run_r8(F, rep, cg=None, expanders=(), inlined=False):
+def run_r8(F, rep, cg=None, expanders=(), inlined=False, gname=None):
     """C20-R8: the token expander examines every line of the chunk it is given"""
     from lib.facts import find, walk, is_node, path_of, render
     rep.rule("C20-R8", "expand_mechdown_include_tokens examines every line: its only Ok exit follows the loop over all lines of the chunk and returns the accumulator that loop fills "
@@ -702,9 +853,18 @@ def run_r8(F, rep, cg=None, expanders=(), inlined=False):
     if inlined and not expanders:
         rep.note("undecided", "C20-R8: the token expander is inlined into the guarded function (direct recursion); its line-loop clauses are not decided on this shape")
         return
-    cfg_ok = False
+    cv = None
     for tname in expanders:
-        cfg_ok = run_r8_cfg(rep, cg, tname) or cfg_ok
+        v = run_r8_cfg(rep, cg, tname, gname)
+        cv = cv or v
+    cfg_ok = cv is not None
+
+    def carried(key, clause, msg):
+        """the syntactic form does not recognise this spelling; the clause itself was decided on the CFG: the verdict carries over
+        (a CFG violation is already reported under its cfg: key)"""
+        rep.note("undecided", "C20-R8 (syntactic form) %s: %s - decided on the CFG instead" % (key, msg))
+        if cv.get(clause) is True:
+            rep.ok("C20-R8", key)
     names = [last(f) for f in expanders] or ["expand_mechdown_include_tokens"]
     fns = [it for c in ("mech.lib", "mech.bin") for it in F.syn(c) if it["k"] == "fn" and it["name"] in names]
 
@@ -713,7 +873,13 @@ def run_r8(F, rep, cg=None, expanders=(), inlined=False):
         if cond:
             rep.ok("C20-R8", key)
         elif cfg_ok:
+            # the loop was found on the CFG: the clauses the syntactic form would have checked carry their CFG verdict
             rep.note("undecided", "C20-R8 (syntactic form) %s: %s - decided on the CFG instead" % (key, msg))
+            rep.ok("C20-R8", key)
+            for k2, clause in (("no-ok-exit-before-line-loop", "exit"), ("line-loop-runs-to-the-end", "exit"), ("returns-the-accumulator", "acc"),
+                               ("per-line-test:standalone_braced_content", "perline")):
+                if cv.get(clause) is True:
+                    rep.ok("C20-R8", k2)
         else:
             rep.bad("C20-R8", key, msg)
         return cond
@@ -735,7 +901,34 @@ def run_r8(F, rep, cg=None, expanders=(), inlined=False):
             if n[0] == "ret" and n[1] is not None and re.match(r"^Ok\(", render(n[1])):
                 out.append(render(n[1])[:50])
         return out
-    early = [r for st in body[:li] for r in ok_returns(st)]
+    # the zero-iteration case taken early is no shortcut: `if <text>.is_empty() { return Ok(<fresh empty String | the text>) }`
+    def empty_input_exit(st):
+        e = st[1] if st[0] == "expr" else None
+        if not (is_node(e) and e[0] == "if" and e[3] is None):
+            return False
+        c = e[1]
+        while is_node(c) and c[0] == "paren":
+            c = c[1]
+        is_src = lambda x: is_node(x) and render(x).lstrip("&*") == src
+        emp = (is_node(c) and c[0] == "mcall" and c[2] == "is_empty" and is_src(c[1])) or \
+              (is_node(c) and c[0] == "bin" and c[1] == "==" and render(c[3]) == "0" and is_node(c[2]) and c[2][0] == "mcall" and c[2][2] == "len" and is_src(c[2][1]))
+        if not emp:
+            return False
+        fresh = {s2[1][1] for s2 in body[:body.index(st)] if s2[0] == "let" and is_node(s2[1]) and s2[1][0] == "pident" and s2[2] is not None
+                 and re.match(r"^String::(new|with_capacity)\(", render(s2[2]))}
+        touched = {render(m[1]).lstrip("&*") for s2 in body[:body.index(st)] + e[2] for m in find(s2, "mcall") if m[2] in ("push_str", "push", "extend", "insert_str")}
+        for r_ in [n for n in walk(e[2]) if n[0] == "ret"]:
+            v = r_[1]
+            if not (is_node(v) and v[0] == "call" and path_of(v[1]) == "Ok" and len(v[2]) == 1):
+                return False
+            x = v[2][0]
+            rx = render(x)
+            okv = (rx in fresh and rx not in touched) or re.match(r"^String::new\(\)$", rx) or rx in ('"".to_string()', '"".to_owned()', 'String::from("")') or \
+                  (is_node(x) and x[0] == "mcall" and x[2] in ("to_string", "to_owned", "into") and is_src(x[1]))
+            if not okv:
+                return False
+        return True
+    early = [r for st in body[:li] if not empty_input_exit(st) for r in ok_returns(st)]
     rep.check(not early, "C20-R8", "no-ok-exit-before-line-loop" if not early else "ok-exit-before-line-loop:%s" % re.sub(r"\W+", "-", early[0])[:40],
               "expand_mechdown_include_tokens returns %s before looking at the lines of the chunk: include lines the shortcut's test does not recognise (the per-line test trims the line first, so "
               "an indented `  {b.mec}` is an include) stay literal text, and a cycle or a missing file behind them is accepted" % early, "expand_mechdown_include_tokens (mech)")
@@ -750,20 +943,20 @@ def run_r8(F, rep, cg=None, expanders=(), inlined=False):
         rep.check(bool(ret_ok), "C20-R8", "returns-the-accumulator", "the final value of expand_mechdown_include_tokens is `%s`, not the buffer the line loop fills (%s)" % (
             render(tail_e)[:40] if tail_e is not None else "?", sorted(acc)), "expand_mechdown_include_tokens (mech)")
     else:
-        rep.note("undecided", "C20-R8 (syntactic form) returns-the-accumulator: tail expression not of the form Ok(<accumulator>) - decided on the CFG instead")
+        carried("returns-the-accumulator", "acc", "tail expression not of the form Ok(<accumulator>)")
     per_line = [c for c in find(loop[3], "call") if (path_of(c[1]) or "").endswith("standalone_braced_content")]
     if len(per_line) == 1 or not cfg_ok:
         rep.check(len(per_line) == 1, "C20-R8", "per-line-test:standalone_braced_content", "the line loop does not apply standalone_braced_content to each line (%d calls)" % len(per_line),
                   "expand_mechdown_include_tokens (mech)")
     else:
-        rep.note("undecided", "C20-R8 (syntactic form) per-line-test: %d direct calls in the loop body - decided on the CFG instead" % len(per_line))
+        carried("per-line-test:standalone_braced_content", "perline", "%d direct calls in the loop body" % len(per_line))
 
 
 def run_r9_cfg(rep, cg, R, m):
     """C20-R9 on the MIR of the guarded function: the four typestate clauses as path properties of the line loop.
-    Returns True when the loop, the fence-state branch and the opener branch were all found."""
+    Returns None when the loop, the fence-state branch or the opener branch was not found, else the verdict per clause."""
     if not m or not (m["fence_sw"] and m["delim_sw"] and m["headers"]):
-        return False
+        return None
     fl, fence_sw, delim_sw, headers, pushes = m["fl"], m["fence_sw"], m["delim_sw"], m["headers"], m["pushes"]
     sl = Slice(R)
     defs = R.defs()
@@ -806,7 +999,7 @@ def run_r9_cfg(rep, cg, R, m):
                         other.append((cb, ct.get("l")))
     if handed:
         rep.note("undecided", "C20-R9: the fence state is handed by `&mut` to %s; its writes are not analysed" % sorted({last(c) for _, c in handed}))
-        return True
+        return {}
     in_loop = lambda b: not all(R.dominates(b, h) for h in headers)
     sets = [b for b in sets if in_loop(b)]
     clears = [b for b in clears if in_loop(b)]
@@ -818,6 +1011,7 @@ def run_r9_cfg(rep, cg, R, m):
         if reach & headers:
             leaks.append(dsw)
     reachable_sets = [b for b in sets if any(b in R.reachable_from([d_some]) for _, _, d_some in delim_sw)]
+    verdict = {"opener": not leaks}
     rep.check(not leaks, "C20-R9", "cfg:opener-sets-state-on-every-path",
               "a line that opens a fence can reach the next line %s: a fence that opens with no pending outside text (first line of a file, two fences back to back) is not entered" % (
                   "with the fence state set only on some paths" if reachable_sets else "without the fence state being set"), where)
@@ -827,6 +1021,7 @@ def run_r9_cfg(rep, cg, R, m):
         if R.locals[ct["d"][0]] == "bool" and any(isinstance(a, list) and fl in sl.locals_feeding(a) for a in ct["args"]):
             close_true += [(swb, tt) for swb, tt, ft in bool_switches(R, ct)]
     unguarded = [b for b in clears if not (any(edge_dominates(R, swb, tt, b) for swb, tt in close_true) and any(edge_dominates(R, sw, st_, b) for sw, _, st_ in fence_sw))]
+    verdict["cleared"] = len(clears) >= 1 and not unguarded
     rep.check(len(clears) >= 1 and not unguarded, "C20-R9", "cfg:state-cleared-only-on-close",
               "the fence state is cleared %d time(s) in the line loop, %d of them not under the close test of the open fence" % (len(clears), len(unguarded)), where)
     # (c) a fenced line and an opening line end the iteration: neither reaches the outside-text handling, a fenced line is not tested as an opener
@@ -839,12 +1034,14 @@ def run_r9_cfg(rep, cg, R, m):
     for dsw, _, d_some in delim_sw:
         if R.reachable_from([d_some], avoid=headers) & push_blocks:
             fall.append(dsw)
+    verdict["continue"] = not fall
     rep.check(not fall, "C20-R9", "cfg:fence-branches-end-the-iteration", "a fence branch falls through to the outside-text handling", where)
     # (d) nothing else writes the state: Some only on the opener path, no writes of another form
     stray = [b for b in sets if not any(edge_dominates(R, dsw, d_some, b) for dsw, _, d_some in delim_sw)]
+    verdict["writes"] = not other and not stray
     rep.check(not other and not stray, "C20-R9", "cfg:no-other-state-writes",
               "the fence state is also written at lines %s" % sorted({l for _, l in other} | {R.blocks[b]["t"].get("l") for b in stray}, key=str), where)
-    return True
+    return verdict
 
 
 def run_r9(F, rep, R=None, mir9=None, cg=None):
@@ -853,14 +1050,24 @@ def run_r9(F, rep, R=None, mir9=None, cg=None):
     rep.rule("C20-R9", "fence typestate: in expand_mechdown_includes_recursive every line that opens a fence sets the fence state unconditionally (the assignment sits at the top level of the "
                        "`if let Some(..) = code_fence_delimiter(line)` branch, not under the flush of the pending text), the state is cleared only under is_code_fence_close, and both "
                        "branches end in `continue` - an opener that is not recorded has its fenced include lines expanded and its closing line read as an opener")
-    cfg_ok = run_r9_cfg(rep, cg, R, mir9) if R is not None else False
+    cv = run_r9_cfg(rep, cg, R, mir9) if R is not None else None
+    cfg_ok = cv is not None
     gname = last(R.fn) if R is not None else "expand_mechdown_includes_recursive"
+    order = ["anchor:%s" % gname, "anchor:line-loop", "anchor:fence-branches"]
+    clauses = [("opener-sets-state-unconditionally", "opener"), ("fence-branches-continue", "continue"), ("state-cleared-only-on-close", "cleared"), ("no-other-state-writes", "writes")]
 
     def shape(cond, key, msg):
         if cond:
             rep.ok("C20-R9", key)
         elif cfg_ok:
+            # this spelling is not the one the syntactic form reads; the loop and both fence branches were found on the CFG and the
+            # four clauses decided there: their verdicts carry over (a CFG violation is already reported under its cfg: key)
             rep.note("undecided", "C20-R9 (syntactic form) %s: %s - decided on the CFG instead" % (key, msg))
+            for k2 in order[order.index(key):]:
+                rep.ok("C20-R9", k2)
+            for k2, clause in clauses:
+                if cv.get(clause) is True:
+                    rep.ok("C20-R9", k2)
         else:
             rep.bad("C20-R9", key, msg)
         return cond
